@@ -504,8 +504,9 @@ class Summary(MetricWrapperBase):
         for details.
         """
         self._raise_if_not_observable()
-        self._count.inc(1)
+        # _sum first: an amount that cannot be added (e.g. an int beyond the float range) must not be counted
         self._sum.inc(amount)
+        self._count.inc(1)
 
     def time(self) -> Timer:
         """Time a block of code or function, and observe the duration in seconds.
